@@ -50,9 +50,20 @@ LONG = [
 ]
 
 
+# near-duplicates: texts that a too-coarse cache key (collapsed whitespace, case folding, stripping, truncation) would
+# confuse with one another, valid and invalid
+_P = "$.items.where($.price > 10).select($.name).orderBy($).take(3).join(', ') + ' and some more text to be long'"
+NEAR_DUPLICATES = [
+    "'a b'", "'a  b'", "'a\tb'", "'A b'", " 'a b' ", "1 + )", "1 +      )", "  1 + )", "1 + ) ", "`p q`", "`p   q`",
+    "abc", "ABC", "abc ", " abc", "$x.y", "$x .y", "$x. y", "$X.y", "[1,2]", "[1, 2]", "[ 1 ,2 ]", "[1,2 ]]",
+    _P, _P + " ", _P[:-1] + "!'", _P + " +", _P.replace('10', '11'), _P.upper() if False else _P.replace('name', 'Name'),
+    "'x' # 1", "'x'  # 1", "'X' # 1",
+]
+
+
 def pools(tier):
     short = list(SHORT)
-    long_ = list(LONG)
+    long_ = list(LONG) + NEAR_DUPLICATES
     if tier == 'thorough':
         short += ['not true', '$x[0]', '{a => 1}', 'f()', '1 2', '$', "'\\x41'", 'a.b(', 'null = null',
                   '1 +', '$ $', ')']
